@@ -45,3 +45,49 @@ Theorem C01_obligation_partial : forall ip6 c evs,
     (run ip6 (fun _ => c_hres c) (c_mw c) (c_upload c) (c_ip c) (c_fp c) init evs) = true.
 Proof. exact Server_proofs.obligation_partial. Qed.
 Print Assumptions C01_obligation_partial.
+
+(* ---- the same theorems about the code: `gen_run` / `gen_final` / `gen_step` / `cl_data_received` are the connection's
+   transition function assembled from the translation of /repo/src/nauyaca/server/protocol.py (coq/Gen/ServerGen.v,
+   regenerated from the working tree on every run; event dispatch in coq/Equiv/ServerLoop.v).  `reenc_ok` is the one
+   assumed fact about CPython's lenient UTF-8 decoder (satisfiable: EquivServerLoop.reenc_ok_satisfiable). ---- *)
+From NV Require Import Prelude.Utf8 Equiv.ServerGlue Gen.ServerGen Equiv.ServerLoop.
+From NV Require Equiv.EquivServerLoop Proofs.Server_on_code.
+Theorem C01_single_response_on_code : forall reenc : str -> str,
+  EquivServerLoop.reenc_ok reenc ->
+  forall ip6 handler mw up ip fp evs,
+  Spec.C01.clause_single (gen_run reenc ip6 handler mw up ip fp init evs) = true.
+Proof. exact Server_on_code.single_response_on_code. Qed.
+Print Assumptions C01_single_response_on_code.
+
+Theorem C01_shape_on_code : forall reenc : str -> str,
+  EquivServerLoop.reenc_ok reenc ->
+  forall ip6 handler mw up ip fp evs,
+  Spec.C01.clause_shape (gen_run reenc ip6 handler mw up ip fp init evs) = true.
+Proof. exact Server_on_code.shape_on_code. Qed.
+Print Assumptions C01_shape_on_code.
+
+Theorem C01_faithful_on_code : forall reenc : str -> str,
+  EquivServerLoop.reenc_ok reenc ->
+  forall ip6 c evs,
+  Spec.C01.clause_faithful c evs
+    (gen_run reenc ip6 (fun _ => c_hres c) (c_mw c) (c_upload c) (c_ip c) (c_fp c) init evs) = true.
+Proof. exact Server_on_code.faithful_on_code. Qed.
+Print Assumptions C01_faithful_on_code.
+
+Theorem C01_silent_after_lost_on_code : forall reenc : str -> str,
+  EquivServerLoop.reenc_ok reenc ->
+  forall ip6 handler mw up ip fp evs,
+  Spec.C01.clause_silent_after_lost evs (gen_run reenc ip6 handler mw up ip fp init evs) false = true.
+Proof. exact Server_on_code.silent_after_lost_on_code. Qed.
+Print Assumptions C01_silent_after_lost_on_code.
+
+Theorem C01_obligation_on_code_partial : forall reenc : str -> str,
+  EquivServerLoop.reenc_ok reenc ->
+  forall ip6 c evs,
+  existsb (fun a => match a with AOutOfModel => true | _ => false end)
+          (flat (gen_run reenc ip6 (fun _ => c_hres c) (c_mw c) (c_upload c) (c_ip c) (c_fp c) init evs)) = false ->
+  Spec.C01.clause_obligation ip6 c evs
+    (gen_run reenc ip6 (fun _ => c_hres c) (c_mw c) (c_upload c) (c_ip c) (c_fp c) init evs) = true.
+Proof. exact Server_on_code.obligation_partial_on_code. Qed.
+Print Assumptions C01_obligation_on_code_partial.
+
